@@ -74,36 +74,11 @@ func TestC01(t *testing.T) {
 	defer adA.Free()
 	defer dstA.Free()
 
-	total := len(P)*K + nLarge
-	m.Cases("main", total, func(i int64, r *rand.Rand) {
-		var n, adlen, kind, dstv, align int
-		classFirst := false
-		if int(i) < len(P)*K {
-			pi, j := int(i)/K, int(i)%K
-			n = P[pi]
-			switch {
-			case j == 0:
-				adlen = 13
-				classFirst = firstOfClass[n%64] == pi
-			case K >= 40 && j <= len(c01ADSet):
-				adlen = c01ADSet[j-1]
-			case K < 40 && j <= 6:
-				adlen = c01ADSet[(pi*6+j-1)%len(c01ADSet)]
-			default:
-				adlen = r.IntN(601)
-			}
-			kind = (pi + j) % 2
-			dstv = (pi + j) % 5
-			align = ((pi + j) / 5) % 2
-		} else {
-			n = mon.LogUniform(r, 2049, c01MaxLen)
-			adlen = mon.Pick(r, []int{0, 13, 16, r.IntN(601)})
-			kind, dstv, align = r.IntN(2), r.IntN(5), r.IntN(2)
-		}
-		key := mon.Bytes(r, 32)
-		nonce := mon.Bytes(r, nonceLen(kind))
-		pt := mon.Bytes(r, n)
-		ad := mon.Bytes(r, adlen)
+	// exec runs one (kind, key, nonce, pt, ad, dst layout, alignment) case on
+	// every path and judges Seal and Open against the spec. tag names the
+	// constructed accumulator family ("" for the random stream).
+	exec := func(i int64, r *rand.Rand, kind int, key, nonce, pt, ad []byte, dstv, align int, classFirst bool, tag, tagDetail string) {
+		n, adlen := len(pt), len(ad)
 		want := aead8439.SealN(key, nonce, pt, ad)
 		if w2 := sodiumaead.AEADSeal(key, nonce, pt, ad); !bytes.Equal(want, w2) {
 			m.Inconclusive(fmt.Sprintf("oracle conflict: ref vs libsodium at case %d (kind=%s n=%d ad=%d)", i, kindName(kind), n, adlen))
@@ -112,7 +87,7 @@ func TestC01(t *testing.T) {
 		m.Count("oracle_ref_sodium_agree", 1)
 		wit := func(path, op string) map[string]any {
 			return map[string]any{"path": path, "op": op, "kind": kindName(kind), "ptlen": n, "adlen": adlen, "dst_layout": dstv, "align": alignName(align),
-				"key": mon.FullHex(key), "nonce": mon.FullHex(nonce), "ad": mon.FullHex(ad), "pt": hexUpTo(pt, 4096)}
+				"key": mon.FullHex(key), "nonce": mon.FullHex(nonce), "ad": mon.FullHex(ad), "pt": hexUpTo(pt, 4096), "constructed": tag + " " + tagDetail}
 		}
 		if i < 3 {
 			w := wit("all", "seal+open")
@@ -131,7 +106,7 @@ func TestC01(t *testing.T) {
 		}
 		aeadv := newAEAD(kind, key)
 		for _, path := range ps {
-			cls := fmt.Sprintf("%s %s %s n%%16=%d ad=%s dst=%d %s", path, kindName(kind), asmBranch(n), n%16, adClass(adlen), dstv, alignName(align))
+			cls := fmt.Sprintf("%s %s %s n%%16=%d ad=%s dst=%d %s %s", path, kindName(kind), asmBranch(n), n%16, adClass(adlen), dstv, alignName(align), tag)
 			// ---------- Seal ----------
 			gpt := place(ptA, align, n, pt)
 			gad := place(adA, align, adlen, ad)
@@ -160,6 +135,10 @@ func TestC01(t *testing.T) {
 			}
 			if classFirst {
 				m.Count(path+"_ptlen_mod64_classes", 1)
+			}
+			if tag != "" {
+				m.Count(path+"_constructed", 1)
+				m.Count(path+"_constructed:"+tag, 1)
 			}
 			if n > 2048 {
 				m.Count(path+"_large", 1)
@@ -219,12 +198,83 @@ func TestC01(t *testing.T) {
 				c01Judge(m, "open", path, d, out, pt, wit)
 			}
 		}
+
+	}
+
+	total := len(P)*K + nLarge
+	m.Cases("main", total, func(i int64, r *rand.Rand) {
+		var n, adlen, kind, dstv, align int
+		classFirst := false
+		if int(i) < len(P)*K {
+			pi, j := int(i)/K, int(i)%K
+			n = P[pi]
+			switch {
+			case j == 0:
+				adlen = 13
+				classFirst = firstOfClass[n%64] == pi
+			case K >= 40 && j <= len(c01ADSet):
+				adlen = c01ADSet[j-1]
+			case K < 40 && j <= 6:
+				adlen = c01ADSet[(pi*6+j-1)%len(c01ADSet)]
+			default:
+				adlen = r.IntN(601)
+			}
+			kind = (pi + j) % 2
+			dstv = (pi + j) % 5
+			align = ((pi + j) / 5) % 2
+		} else {
+			n = mon.LogUniform(r, 2049, c01MaxLen)
+			adlen = mon.Pick(r, []int{0, 13, 16, r.IntN(601)})
+			kind, dstv, align = r.IntN(2), r.IntN(5), r.IntN(2)
+		}
+		exec(i, r, kind, mon.Bytes(r, 32), mon.Bytes(r, nonceLen(kind)), mon.Bytes(r, n), mon.Bytes(r, adlen), dstv, align, classFirst, "", "")
+	})
+
+	// ---- constructed stream: the true final Poly1305 accumulator is steered
+	// to the edges of the final reduction and of the tag addition ----
+	targets := polyTargets()
+	conLens := []int{1, 15, 16, 17, 31, 32, 100, 128, 129, 160, 192, 193, 250, 256, 257, 320, 321, 384, 385, 448, 449, 512, 513, 600, 1024, 1100, 2049}
+	conADs := []int{0, 13, 16, 33}
+	conADsShort := []int{16, 32, 33, 48} // payload < 16 bytes: the solved block is an AD block
+	reps := m.N(1, 3)
+	perRep := 2 * len(conLens) * len(conADs) * len(targets)
+	famCount := map[string]int{}
+	for _, t := range targets {
+		famCount[t.fam] += 2 * len(conLens) * len(conADs) * reps
+	}
+	m.Cases("constructed", perRep*reps, func(i int64, r *rand.Rand) {
+		u := int(i) % perRep
+		ti := u % len(targets)
+		u /= len(targets)
+		ai := u % len(conADs)
+		u /= len(conADs)
+		li := u % len(conLens)
+		kind := u / len(conLens)
+		n, tgt := conLens[li], targets[ti]
+		adlen := conADs[ai]
+		if n < 16 {
+			adlen = conADsShort[ai]
+		}
+		c, ok := constructAEAD(r, kind, n, adlen, tgt)
+		if !ok {
+			m.Count("constructed_unsolved", 1)
+			return
+		}
+		m.Count("constructed_attempts", c.tries)
+		if i < 2 {
+			m.Sample(map[string]any{"stream": "constructed", "kind": kindName(kind), "ptlen": n, "adlen": adlen, "target": tgt.fam + " " + tgt.name, "accumulator": c.target.Text(16),
+				"key": mon.FullHex(c.key), "nonce": mon.FullHex(c.nonce), "ad": mon.FullHex(c.ad), "pt": mon.Hex(c.pt), "solved_block_in": c.solvedIn, "attempts": c.tries})
+		}
+		exec(i, r, kind, c.key, c.nonce, c.pt, c.ad, int(i)%5, int(i/5)%2, false, tgt.fam, tgt.name+" acc=0x"+c.target.Text(16))
 	})
 	for _, p := range []string{"asm", "generic", "purego"} {
 		m.Gate(p+"_seal", len(P)*K/2, "Seal executions on the "+p+" path compared with the RFC 8439 spec")
 		m.Gate(p+"_open", len(P)*K/2, "Open executions on the "+p+" path")
 		m.Gate(p+"_ptlen_mod64_classes", 64, "every payload length class mod 64 seen on the "+p+" path")
 		m.Gate(p+"_ad13", len(P)/2, "additional data of 13 bytes (assembly special case) on the "+p+" path")
+		for fam, cnt := range famCount {
+			m.Gate(p+"_constructed:"+fam, cnt*9/10, "Seal+Open on the "+p+" path of messages whose true final Poly1305 accumulator was constructed in family "+fam)
+		}
 		m.Gate(p+"_large", nLarge/2, "payloads above 2 KiB (multi-iteration main loop) on the "+p+" path")
 	}
 }
